@@ -8,9 +8,11 @@ mkdir -p /tmp/cs
 git -C /repo worktree add -q --detach "$WT" HEAD || exit 2
 export NUMBA_CACHE_DIR=/tmp/cs/nb_$NAME
 cd "$WT" || exit 2
-PYTHONPATH="$WT" /venv/bin/python "$AD/demo$N.py" > /tmp/cs/$NAME.clean.out 2>&1; RC_CLEAN=$?
+# demos assert that the library is imported from the agent's own worktree: point them at this one
+sed "s#/tmp/wt/[A-Z0-9]*#$WT#g" "$AD/demo$N.py" > /tmp/cs/$NAME.demo.py
+PYTHONPATH="$WT" /venv/bin/python /tmp/cs/$NAME.demo.py > /tmp/cs/$NAME.clean.out 2>&1; RC_CLEAN=$?
 git apply "$AD/patch$N.diff" || { echo "patch does not apply"; git -C /repo worktree remove --force "$WT"; exit 2; }
-PYTHONPATH="$WT" /venv/bin/python "$AD/demo$N.py" > /tmp/cs/$NAME.patched.out 2>&1; RC_PATCH=$?
+PYTHONPATH="$WT" /venv/bin/python /tmp/cs/$NAME.demo.py > /tmp/cs/$NAME.patched.out 2>&1; RC_PATCH=$?
 /venv/bin/python -m pytest -q -p no:cacheprovider --timeout=900 --continue-on-collection-errors --junitxml=/tmp/cs/$NAME.xml > /tmp/cs/$NAME.pytest.out 2>&1
 MISSING=$(python3 - "$NAME" <<'PY'
 import json,sys,xml.etree.ElementTree as ET
